@@ -938,6 +938,26 @@ class Interp:
                 if s.kind in ("cat", "join") and o == "":
                     return False
             return False
+        if isinstance(a, SetVal) and isinstance(b, SetVal):
+            return len(a.items) == len(b.items) and all(any(self.equal(x, y, node) for y in b.items) for x in a.items)
+        if isinstance(a, DictVal) and isinstance(b, DictVal):
+            if len(a.d) != len(b.d):
+                return False
+            for k, v in a.d.items():
+                hit = [k2 for k2 in b.d if self.equal(k, k2, node)]
+                if not hit or not self.equal(v, b.d[hit[0]], node):
+                    return False
+            return True
+        if isinstance(a, Tup) and a.cls in ("Interval", "Point") and not getattr(self, "_in_nt_eq", False):
+            # the repository's own Interval.__eq__ / Point.__eq__ (constants.py), interpreted
+            ci = self.idx.classes.get(a.cls)
+            m = ci.lookup("__eq__") if ci is not None else None
+            if m is not None:
+                self._in_nt_eq = True
+                try:
+                    return self.truth(self.call_function(m, [a, b], {}))
+                finally:
+                    self._in_nt_eq = False
         if isinstance(a, Tup) and isinstance(b, Tup):
             if a.cls != b.cls and (a.cls in ("Interval", "Point") and b.cls in ("Interval", "Point")):
                 return False
